@@ -15,12 +15,12 @@ echo -n "   build with change: "; go build ./... 2>&1 | tail -1; echo ok
 echo -n "   demo with change: "; go test -vet=off -count=1 -run "$rx" ./$demodir/ 2>&1 | grep -E "^(--- FAIL|FAIL|ok)" | head -2 | tr '\n' ' '; echo
 rm -f $demodir/zz_seed_demo*_test.go
 echo "   existing tests with change ($pkgs):"; unshare -rn bash -c "ip link set lo up; go test -vet=off -count=1 $pkgs 2>&1" | grep -E "^(--- FAIL|\s+--- FAIL|FAIL|ok)" | grep -v "no test files" | cut -c1-110 | sed 's/^/      /'
-git checkout -q -- .
+git checkout -q -- . ; git clean -fdq   # (SEED is parked outside the worktree: files a patch adds are removed too)
 # the checks are run against the scratch worktree with the patch applied (never against /repo), in a work directory of their own
 git apply $W/../SEED-$id-tmp/patch.diff
 cd /verif
 WD=/tmp/evalwork-$id; mkdir -p $WD/evidence
 for c in $checks; do echo -n "   ./check $c (quick, VERIF_REPO=$W): "; VERIF_REPO=$W VERIF_WORKDIR=$WD VERIF_EVIDENCE_DIR=$WD/evidence ./check $c 2>&1 | grep -E "^(OK|VIOLATION|INFRA)|violation key" | sed "s|$WD/found/||" | head -4 | cut -c1-170 | tr '\n' '|'; echo; done
-git -C $W checkout -q -- .
+git -C $W checkout -q -- . ; git -C $W clean -fdq
 mv $W/../SEED-$id-tmp $S
 rm -rf $WD
